@@ -16,7 +16,7 @@ ConfigTypes == {"config", "config|noreplace", "config|missingok"}
 
 (* ---- the plan for a format -------------------------------------------- *)
 EffUmask(c) == IF c.umask = 0 THEN 2 ELSE c.umask
-CtxOf(c, tree, f) == [pk |-> f, tree |-> tree, umask |-> EffUmask(c), noglob |-> c.noglob, pmt |-> c.pmt]
+CtxOf(c, tree, f) == [pk |-> f, tree |-> tree, umask |-> EffUmask(c), noglob |-> c.noglob, pmt |-> c.pmt, pmtset |-> c.pmtset]
 
 ChangelogEntry(c) ==
   [type |-> "debian changelog", src |-> "", dst |-> "/usr/share/doc/" \o c.name \o "/changelog.Debian.gz",
@@ -87,7 +87,7 @@ PayloadClauses(f, c, tree, m, evs) ==
         \cup (IF \E o \in files : X(o).type # "debian changelog" /\ o.mode # X(o).mode THEN {"C01.file_mode"} ELSE {})
         \cup (IF \E o \in files : o.owner # X(o).owner THEN {"C01.file_owner"} ELSE {})
         \cup (IF \E o \in files : o.group # X(o).group THEN {"C01.file_group"} ELSE {})
-        \cup (IF \E o \in files : X(o).type # "debian changelog" /\ X(o).mt # 0 /\ o.mt # X(o).mt THEN {"C01.file_mtime"} ELSE {})
+        \cup (IF \E o \in files : X(o).type # "debian changelog" /\ (X(o).mt # 0 \/ c.pmtset) /\ o.mt # X(o).mt THEN {"C01.file_mtime"} ELSE {})
         \cup (IF \E o \in dirs : o.mode # X(o).mode THEN {"C01.dir_mode"} ELSE {})
         \cup (IF \E o \in dirs : o.owner # X(o).owner THEN {"C01.dir_owner"} ELSE {})
         \cup (IF \E o \in dirs : o.group # X(o).group THEN {"C01.dir_group"} ELSE {})
@@ -236,11 +236,11 @@ DigestClauses(f, c, evs) ==
             \cup (IF \E p \in pair : evs[p[2]].mt >= 1 /\ evs[p[1]].time = NatToStr(evs[p[2]].mt - 1) \o ".0" THEN {"DOC.mtree_time_rounding"} ELSE {})
             \cup (LET bad == { p \in pair : evs[p[2]].mt >= 0 /\ evs[p[1]].time # NatToStr(evs[p[2]].mt) \o ".0"
                                            /\ ~(evs[p[2]].mt >= 1 /\ evs[p[1]].time = NatToStr(evs[p[2]].mt - 1) \o ".0")
-                                           /\ ~(c.pmt = 0 /\ evs[p[2]].name = ".PKGINFO") } IN
+                                           /\ ~(~c.pmtset /\ evs[p[2]].name = ".PKGINFO") } IN
                   IF bad = {} THEN {}
                   \* as-is deviation: without a configured package mtime, entries that have no time of their own (implied
                   \* directories, symlinks found in a tree) carry Go's zero time in .MTREE while their tar header says 0
-                  ELSE IF c.pmt = 0 /\ \A p \in bad : evs[p[2]].type \in {"5", "2"} /\ evs[p[2]].mt = 0 /\ evs[p[1]].time = "-62135596800.0"
+                  ELSE IF ~c.pmtset /\ \A p \in bad : evs[p[2]].type \in {"5", "2"} /\ evs[p[2]].mt = 0 /\ evs[p[1]].time = "-62135596800.0"
                        THEN {"C03.mtree_time@ArchZeroTimeDirs"}
                   ELSE {"C03.mtree_time"})
             \cup (IF \E p \in pair : evs[p[2]].type = "0" /\ evs[p[1]].size # NatToStr(evs[p[2]].size) THEN {"C03.mtree_size"} ELSE {})
@@ -268,6 +268,32 @@ DigestClauses(f, c, evs) ==
             \cup (IF HasMeta(evs, "sig", "1004") /\ Meta1(evs, "sig", "1004") # "hex:" \o sv("hdr_plus_payload_md5") THEN {"C03.rpm_sig_md5"} ELSE {})
             \cup (IF HasMeta(evs, "hdr", "1009") /\ Meta1(evs, "hdr", "1009") # NatToStr(SumSizes(evs, reg)) THEN {"DOC.rpm_size_tag"} ELSE {})
     [] OTHER -> {}
+
+(* ---- C07: no timestamp in the package comes from the build-time clock ----- *)
+(* With the package mtime fixed, every stamp stored anywhere in the package *)
+(* equals the configured mtime, a configured per-entry mtime, the on-disk   *)
+(* mtime of a source (content, script, changelog) or is a constant zero.    *)
+(* The generator keeps all of these years apart from the wall clock, so a   *)
+(* stamp's VALUE identifies its provenance.                                 *)
+ZeroStamps == {0, 2147483647}      \* 0, and Go's zero time truncated to 32 bits (clamped by the harness)
+AllowedStamps(c, tree) ==
+  {c.pmt} \cup ZeroStamps \cup { c.entries[i].fi.mt : i \in 1..Len(c.entries) } \cup { n.mt : n \in tree }
+     \cup { c.script_mt[k] : k \in DOMAIN c.script_mt } \cup { c.changelog[i].date : i \in 1..Len(c.changelog) }
+StampStr(n) == NatToStr(n)
+StampClauses(f, c, tree, evs) ==
+  IF ~c.pmtset THEN {}
+  ELSE LET ok == AllowedStamps(c, tree)
+           okStr == { StampStr(x) : x \in ok }
+           numeric == { evs[i].mt : i \in Idx(evs, LAMBDA e : e.ev \in {"outer", "tar", "slot", "rpmfile"}) }
+           structs == { evs[i].value : i \in Idx(evs, LAMBDA e : e.ev = "struct" /\ HasPrefix(e.key, "gz_mtime:")) }
+           metas == (IF HasMeta(evs, "hdr", "1006") THEN SeqToSet(MetaVals(evs, "hdr", "1006")) ELSE {})
+                    \cup (IF f = "archlinux" /\ HasMeta(evs, "pkginfo", "builddate") THEN SeqToSet(MetaVals(evs, "pkginfo", "builddate")) ELSE {})
+           mtree == { evs[i].time : i \in Idx(evs, LAMBDA e : e.ev = "mtree") }
+           okMtree == { x \o ".0" : x \in okStr } \cup {"-62135596800.0"}
+       IN (IF numeric \subseteq ok THEN {} ELSE {"C07.no_clock_stamp.member_header"})
+          \cup (IF structs \subseteq okStr THEN {} ELSE {"C07.no_clock_stamp.gzip_header"})
+          \cup (IF metas \subseteq okStr THEN {} ELSE {"C07.no_clock_stamp.build_time"})
+          \cup (IF mtree \subseteq okMtree THEN {} ELSE {"C07.no_clock_stamp.mtree"})
 
 (* ---- C08: configuration files, rpm special types -------------------------- *)
 RpmFlagOf(t) == CASE t = "config" -> 1 [] t = "config|noreplace" -> 17 [] t = "config|missingok" -> 9
